@@ -84,6 +84,7 @@ Definition attempt_of_kind (kind : N) : option attempt :=
   | 7 => Some (AtFail true true)      (* stream request timeout / loss *)
   | 8 => Some (AtFail false true)     (* connection refused (not observable by the fake server) *)
   | 9 => Some (AtFail true false)     (* protocol violation by the server while a stream request is in flight *)
+  | 10 => Some (AtFail false true)    (* handshake timeout within the TLS handshake *)
   | _ => None                          (* healthy *)
   end.
 
